@@ -76,6 +76,9 @@ const TOO_MANY_STEPS: &str = "TOO-MANY-STEPS: the solo call exceeded the step li
 /// atomic steps with c <= 3 completing updates is 64 events; 4 000 is far
 /// beyond anything a bounded retry loop produces.
 const STEP_LIMIT: usize = 4_000;
+/// Wall-clock safety net only (its firing is inconclusive, never a verdict);
+/// under Miri on a loaded machine eighty instrumented calls take a while.
+const WATCHDOG_SECS: u64 = if cfg!(miri) { 120 } else { 6 };
 
 fn with_ctl<T>(f: impl FnOnce(&mut Ctl) -> T) -> T {
     let mut g = CTL.lock().unwrap_or_else(|e| e.into_inner());
@@ -249,14 +252,14 @@ pub struct Fail {
 
 fn wait_until(pred: impl Fn(&Ctl) -> bool, what: &str) -> Result<(), Fail> {
     let mut g = CTL.lock().unwrap_or_else(|e| e.into_inner());
-    let deadline = std::time::Instant::now() + std::time::Duration::from_secs(6);
+    let deadline = std::time::Instant::now() + std::time::Duration::from_secs(WATCHDOG_SECS);
     loop {
         if pred(g.as_ref().expect("ctl")) {
             return Ok(());
         }
         let now = std::time::Instant::now();
         if now >= deadline {
-            return Err(Fail { sig: "watchdog".into(), what: format!("harness watchdog: {} did not happen within 6 s", what), inconclusive: true });
+            return Err(Fail { sig: "watchdog".into(), what: format!("harness watchdog: {} did not happen within the watchdog time", what), inconclusive: true });
         }
         let (ng, _) = CV.wait_timeout(g, deadline - now).unwrap_or_else(|e| e.into_inner());
         g = ng;
@@ -385,7 +388,7 @@ fn run_scenario(s: &Scenario, salt: u64) -> Result<Outcome, Fail> {
     // writer so that it completes the frozen update and `c` more, then resume.
     if s.solo_pause.is_some() {
         // The solo thread may finish before reaching event j.
-        let deadline = std::time::Instant::now() + std::time::Duration::from_secs(6);
+        let deadline = std::time::Instant::now() + std::time::Duration::from_secs(WATCHDOG_SECS);
         loop {
             let (paused, _) = with_ctl(|c| (c.solo_paused, c.solo_resume));
             if paused || solo.is_finished() {
@@ -404,7 +407,7 @@ fn run_scenario(s: &Scenario, salt: u64) -> Result<Outcome, Fail> {
     }
 
     // The solo thread must complete on its own while the writer is frozen.
-    let got = rx.recv_timeout(std::time::Duration::from_secs(6));
+    let got = rx.recv_timeout(std::time::Duration::from_secs(WATCHDOG_SECS));
     // Now release everything.
     with_ctl(|c| {
         c.release = true;
@@ -419,7 +422,7 @@ fn run_scenario(s: &Scenario, salt: u64) -> Result<Outcome, Fail> {
             if let Some(h) = w2 {
                 let _ = h.join();
             }
-            return Err(Fail { sig: "watchdog".into(), what: "solo thread did not complete within 6 s while the writer was frozen (no instrumented blocking lock was requested)".into(), inconclusive: true });
+            return Err(Fail { sig: "watchdog".into(), what: "solo thread did not complete within the watchdog time while the writer was frozen (no instrumented blocking lock was requested)".into(), inconclusive: true });
         }
     };
     let _ = solo.join();
@@ -569,13 +572,13 @@ fn run_static_scenario(freeze_at: usize, blocking: bool, solo_observes: bool, di
         let log = SOLO_LOG.with(|l| l.borrow().clone());
         let _ = tx.send((r.map_err(|_| crate::ctx::take_last_panic()), log));
     });
-    let got = rx.recv_timeout(std::time::Duration::from_secs(6));
+    let got = rx.recv_timeout(std::time::Duration::from_secs(WATCHDOG_SECS));
     with_ctl(|c| c.release = true);
     CV.notify_all();
     let _ = w.join();
     let (r, log) = match got {
         Ok(x) => x,
-        Err(_) => return Err(Fail { sig: "watchdog".into(), what: "get_base_time_unlocked did not complete within 6 s while the writer was frozen".into(), inconclusive: true }),
+        Err(_) => return Err(Fail { sig: "watchdog".into(), what: "get_base_time_unlocked did not complete within the watchdog time while the writer was frozen".into(), inconclusive: true }),
     };
     let _ = solo.join();
     let v = |sig: &str, what: String| Fail { sig: sig.to_string(), what, inconclusive: false };
@@ -635,7 +638,7 @@ pub fn run(ctx: &mut Ctx) {
     }
     // many try_update calls in a row against one frozen writer (accumulated
     // per-object state: counters of lost races, back-off, ...)
-    let many = ctx.args.get_u64("try-repeat", 80) as usize;
+    let many = ctx.args.get_u64("try-repeat", if cfg!(miri) { 36 } else { 80 }) as usize;
     for writer_op in [WriterOp::Update, WriterOp::TryUpdate] {
         for freeze_at in 0..max_freeze {
             scenarios.push(Scenario { target_static: false, writer_op, pre_complete: 1, freeze_at, second_writer: false, solo_op: SoloOp::TryUpdate, solo_pause: None, repeat: many, poisoned: false });
